@@ -103,14 +103,14 @@ def subj_selector(b, kind, pattern):
     needs_y = fam in ("pcovfps", "pcovcur")
     # comparisons between two executions are only meaningful where the selection is well
     # defined (no exhausted candidates / degenerate spectra); purity-only runs use any data
-    kinds = WELL if pattern in ("repeat", "refit", "single") else ANYK
+    kinds = WELL if pattern in ("repeat", "refit", "single", "interleave") else ANYK
     n, m = rng.randint(4, 16), rng.randint(3, 9)
     XA = b.X(n, m, kinds)
     n2, m2 = (n, m) if rng.random() < 0.3 else (rng.randint(4, 16), rng.randint(3, 9))
     XB = b.X(n2, m2, kinds)
     nfA, nfB = (XA["shape"][axis], XB["shape"][axis])
     lim = min(nfA, nfB)
-    if fam in ("cur", "pcovcur") and pattern in ("repeat", "refit", "single"):
+    if fam in ("cur", "pcovcur") and pattern in ("repeat", "refit", "single", "interleave"):
         lim = max(1, min(lim, min(min(XA["shape"]), min(XB["shape"])) - 3))
     N = rng.randint(1, max(1, lim))
     p = {"n_to_select": N}
@@ -568,6 +568,29 @@ def gen_class_trace(b, kind, pattern):
         else:
             ops.append({"op": "FIT", "obj": "e0", "args": s["fitB"], "env": b.env(kind, s["params"], allow)})
         ops.extend(_reads_ops("e0", s, s["fitB"], b))
+    elif pattern == "interleave":
+        # one fitted object, its reads, then unrelated activity in the same process (the same
+        # reads again, another object of the same class constructed/fitted/read on other data
+        # with other parameters, a pickle round trip), then the same reads again
+        ops.append({"op": "NEW", "obj": "e0", "kind": kind, "params": s["params"]})
+        ops.append({"op": "FIT", "obj": "e0", "args": s["fitB"], "env": b.env(kind, s["params"], allow)})
+        reads = _reads_ops("e0", s, s["fitB"], b)
+        for o in reads:
+            o["env"] = {"rng": {"seed": _seed(rng)}}
+        ops.extend(reads)
+        between = rng.choice(["reads_only", "other_object", "other_object", "restart"])
+        if between == "other_object":
+            s2 = SUBJECTS[kind](b, kind, "single")
+            ops.append({"op": "NEW", "obj": "e1", "kind": kind, "params": s2["params"]})
+            ops.append({"op": "FIT", "obj": "e1", "args": s2["fitA"], "env": b.env(kind, s2["params"], allow)})
+            ops.extend(_reads_ops("e1", s2, s2["fitA"], b)[:3])
+        elif between == "restart":
+            ops.append({"op": "RESTART", "obj": "e0"})
+        for o in reads:
+            o2 = copy.deepcopy(o)
+            o2["again"] = between
+            o2["env"] = {"rng": {"seed": _seed(rng)}}
+            ops.append(o2)
     elif pattern == "repeat":
         for li in range(2):
             nm = f"e{li}"
@@ -735,9 +758,9 @@ def gen_c09(rng, idx, tier, faults):
             kind = "sample.VoronoiFPS"  # the only consumer of the wall clock
         r2 = rng.random()
         if faults:
-            pattern = "refit" if r2 < 0.35 else "repeat" if r2 < 0.6 else "fault" if r2 < 0.85 else "single"
+            pattern = "refit" if r2 < 0.35 else "repeat" if r2 < 0.55 else "fault" if r2 < 0.8 else "interleave" if r2 < 0.9 else "single"
         else:
-            pattern = "refit" if r2 < 0.5 else "repeat" if r2 < 0.7 else "single"
+            pattern = "refit" if r2 < 0.45 else "repeat" if r2 < 0.65 else "interleave" if r2 < 0.82 else "single"
         gen_class_trace(b, kind, pattern)
         what = kind
     return {"heap": b.heap, "ops": b.ops, "pattern": pattern, "subject": what}
